@@ -3,6 +3,7 @@ import ComposeVerif.Lemmas.ExtendsFuel
 import ComposeVerif.Lemmas.ExtendsComplete
 import ComposeVerif.Neg.C05
 import ComposeVerif.Model.ExtendsMerge
+import ComposeVerif.Lemmas.ExtendsReal
 /-!
 # C05 — extends yields base-then-local override, order-independent, cycle-safe
 
@@ -368,6 +369,48 @@ theorem applyExtends_perm_real (mainFile : String) (fs : FS) {order₁ order₂ 
       lookup "services" out₁ = some (.map R₁) ∧ lookup "services" out₂ = some (.map R₂) ∧
       ∀ n, lookup n R₁ = lookup n R₂ :=
   applyExtends_perm hS hnn hfs hmain h₁ h₂ r₁
+
+/-- **the real merge step never panics** (C04's `extendService_never_panics`, since the round-2 repairs of the
+special mergers), so the environment of a real load is panic-free as soon as loading the extended files is -/
+theorem realEnv_panicFree (mainFile : String) (fs : FS) (hfs : ∀ f s, ¬ fsPanics fs f s) :
+    PanicFree (realEnv mainFile fs) :=
+  ⟨fun b svc s => mergeExtend_never_panics b svc s, hfs⟩
+
+/-- with the real merge step `ApplyExtends` returns a result or an error, for every document and visit order,
+provided loading the extended files does not panic -/
+theorem applyExtends_ok_or_err_real (mainFile : String) (fs : FS) (hfs : ∀ f s, ¬ fsPanics fs f s)
+    {order : List String} {dict : KVs}
+    (hord : ∀ S, lookup "services" dict = some (.map S) → Visits order S) :
+    (∃ out, applyExtendsOrd (realEnv mainFile fs) order dict = .ok out) ∨
+      ∃ c, applyExtendsOrd (realEnv mainFile fs) order dict = .err c :=
+  applyExtends_ok_or_err (realEnv_panicFree mainFile fs hfs) hord
+
+/-- cyclic chain ⇒ error, with the real merge step -/
+theorem cycle_is_error_real (mainFile : String) (fs : FS) (hfs : ∀ f s, ¬ fsPanics fs f s)
+    {order : List String} {dict S : KVs} {n : String}
+    (hS : lookup "services" dict = some (.map S)) (hnn : NoNull S) (hnfs : NoNullFS (realEnv mainFile fs))
+    (hord : Visits order S) (hn : lookup n S ≠ none) (hc : Cyclic (realEnv mainFile fs) (S, n)) :
+    ∃ c, applyExtendsOrd (realEnv mainFile fs) order dict = .err c :=
+  cycle_is_error (realEnv_panicFree mainFile fs hfs) hS hnn hnfs hord hn hc
+
+/-- **the executable flatten specification is the `Flat` relation**: `flattenF` (what the driver computes for the
+spec oracle: no tracker, no memoisation, no visit order) succeeds with `v` for some chain-length bound iff `Flat` -/
+theorem flattenF_iff_flat (E : Env) (S : KVs) (n : String) (v : Val) :
+    (∃ fuel, flattenF E fuel S n = .ok v) ↔ Flat E S n v :=
+  ⟨fun ⟨fuel, h⟩ => flattenF_sound E fuel S n v h, flattenF_complete E⟩
+
+/-- whenever `ApplyExtends` succeeds, every service is what `flattenF` computes (the statement the spec oracle
+decides on the real code) -/
+theorem extends_eq_flattenF {E : Env} {order : List String} {dict out S : KVs}
+    (hS : lookup "services" dict = some (.map S)) (hnn : NoNull S) (hfs : NoNullFS E)
+    (hord : Visits order S) (h : applyExtendsOrd E order dict = .ok out) :
+    ∃ R, lookup "services" out = some (.map R) ∧
+      ∀ n, lookup n S ≠ none → ∃ v fuel, lookup n R = some v ∧ flattenF E fuel S n = .ok v := by
+  obtain ⟨R, hR, hall⟩ := extends_eq_flatten hS hnn hfs hord h
+  refine ⟨R, hR, fun n hn => ?_⟩
+  obtain ⟨v, hv, hf⟩ := (hall n).2 hn
+  obtain ⟨fuel, hfu⟩ := flattenF_complete E hf
+  exact ⟨v, fuel, hv, hfu⟩
 
 /-! ## non-vacuity: the hypotheses of the theorems above are satisfiable by a non-trivial input
 (the two-file model of `Neg/C05.lean`, visited in the order that succeeds) -/
